@@ -16,7 +16,18 @@ from sismic.io import import_from_yaml
 
 import gen_charts as gc
 
+_ALPHA = 'abcdefghijklmnopqrstuvwxyz'
+_YAML11 = ['n', 'no', 'off', 'on', 'y', 'yes']
+
+
+def _chars(i):
+    """single-character names and two-character names that contain the previous single character"""
+    return _ALPHA[i - 1] if i % 2 == 1 else _ALPHA[i - 1] + _ALPHA[i - 2]
+
+
 POOLS = {
+    'chars': _chars,
+    'yaml11': lambda i: _YAML11[i - 1] if i <= len(_YAML11) else 'z%02d' % i,
     'plain': lambda i: 's%02d' % i,
     'unicode': lambda i: 'é\u00df%02d\u4e2d' % i,
     'yamlish': lambda i: '%02d: [x' % i,
@@ -45,6 +56,7 @@ def code_of(kind, ident, d):
     if d['incx']:
         lines.append('x = x + %d' % d['incx'])
         lines.append('box[0].append(x)')
+        lines.append('lst.append(x)')
     for s in d['sends']:
         args = [repr(ev_name(s['ev']))]
         if s['dl']:
@@ -127,7 +139,7 @@ def make_transition(c, tid, names):
 
 
 def build_api(c, names, rng=None, order='random'):
-    sc = Statechart('chart', description='generated', preamble='x = 0\nbox = [[]]')
+    sc = Statechart('chart', description='generated', preamble='x = 0\nbox = [[]]\nlst = []')
     n = c['n']
     # parents before children; among the states that can be added, pick in the chosen order
     pending = list(range(1, n + 1))
@@ -157,7 +169,7 @@ def build_api(c, names, rng=None, order='random'):
 def build_api_edit(c, names, rng):
     """Build through the editing API: composite sub-trees are first created under the root and then
     moved to their place with move_state; some states are created under a temporary name and renamed."""
-    sc = Statechart('chart', description='generated', preamble='x = 0\nbox = [[]]')
+    sc = Statechart('chart', description='generated', preamble='x = 0\nbox = [[]]\nlst = []')
     n = c['n']
     r = gc.root(c)
     order = sorted(range(1, n + 1), key=lambda s: (gc.depth(c, s), rng.random()))
@@ -203,7 +215,7 @@ def _ystr(s):
 
 
 def yaml_text(c, names, reverse=False):
-    lines = ['statechart:', '  name: chart', '  description: generated', '  preamble: "x = 0\\nbox = [[]]"', '  root state:']
+    lines = ['statechart:', '  name: chart', '  description: generated', '  preamble: "x = 0\\nbox = [[]]\\nlst = []"', '  root state:']
 
     def contract(ind, pre, post, inv):
         out = []
